@@ -37,8 +37,54 @@ pub fn gen_work_req(r: &mut Rng, nonce: u64, allow_panic: bool) -> WorkReq {
     WorkReq { nonce, steps, step_ms, panic_at, resp_bytes, body, chunked }
 }
 
+/// Clients that send a request and leave, and a program that shuts the
+/// server down and exits while their handlers are still running: in detached
+/// mode "runs to completion whenever the client disconnects" then rests on
+/// `close()` not returning before they have finished.
+fn gen_orphans(r: &mut Rng, seed: u64, idx: u64) -> Plan {
+    let mode = if r.chance(1, 4) { Mode::Cancel } else { Mode::Detached };
+    let n = r.usize_in(2, 4);
+    let mut conns = Vec::new();
+    for i in 0..n {
+        let mut c = blank_conn(1700 + i as u16);
+        c.start_ms = r.range(0, 30);
+        let w = WorkReq {
+            nonce: 1 + i as u64,
+            steps: r.range(1, 4) as u32,
+            step_ms: r.range(200, 3_000),
+            panic_at: 0,
+            resp_bytes: *r.pick(&[0usize, 10, 300]),
+            body: None,
+            chunked: None,
+        };
+        c.steps.push(Step::Send { data: Blob(w.bytes()), completes: Some(0) });
+        c.steps.push(Step::Sleep { ms: r.range(20, 150) });
+        c.steps.push(if r.chance(1, 2) { Step::Close } else { Step::Reset });
+        c.reqs.push(w.plan());
+        conns.push(c);
+    }
+    Plan {
+        property: "C16".into(),
+        seed: mix(seed, idx),
+        server: ServerPlan { mode, body_limit: 1024, api: ApiKind::Work, rt_override: None, tls: false },
+        conns,
+        shutdown: Some(ShutdownPlan {
+            trigger: CloseTrigger::AtMs(r.range(250, 1_500)),
+            by_drop: false,
+            waiters: vec![],
+            restart: false,
+        }),
+        accept_errs: vec![],
+        final_health: false,
+        note: format!("random idx={idx} orphans then close()"),
+    }
+}
+
 pub fn gen_random(seed: u64, idx: u64) -> Plan {
     let mut r = Rng::derive(mix(seed, idx), "c16-random");
+    if r.chance(1, 12) {
+        return gen_orphans(&mut r, seed, idx);
+    }
     let mode = if r.chance(1, 2) { Mode::Cancel } else { Mode::Detached };
     let nconns = *r.pick(&[1usize, 2, 2, 3, 3, 4, 5, 6, 8]);
     let max_victims = if r.chance(1, 6) { 0 } else { (nconns / 3).max(1) };
@@ -475,6 +521,32 @@ pub fn check_c16(
     // rule 5 (part): no panic other than the planned ones
     for p in unexpected_panics(plan, out) {
         v.push(Violation { rule: "c16.unexpected_panic".into(), detail: p });
+    }
+    // a planned close(): it must not return while a detached handler that
+    // had started before it was requested is still running (the program may
+    // exit as soon as close() has returned)
+    if let (Mode::Detached, Some(sd)) = (plan.server.mode, &plan.shutdown) {
+        let req = out.events.iter().find(|e| e.kind == Ev::CloseRequested).map(|e| e.seq);
+        let ret = out.events.iter().find(|e| e.kind == Ev::CloseReturned).map(|e| e.seq);
+        if let (false, Some(req), Some(ret)) = (sd.by_drop, req, ret) {
+            for (nonce, h) in hist.iter() {
+                let Some((eseq, _)) = h.enter.first().copied() else { continue };
+                if eseq > req {
+                    continue;
+                }
+                probe("detached_handler_running_at_close");
+                let ended = h.terminal.first().map(|t| t.0);
+                if ended.map(|q| q > ret).unwrap_or(true) {
+                    v.push(Violation {
+                        rule: "c16.detached_completes".into(),
+                        detail: format!(
+                            "detached handler nonce {nonce} (client gone) was still running when close() returned at seq {ret} (handler ended {:?}): a program that exits after close() kills it",
+                            h.terminal.first()
+                        ),
+                    });
+                }
+            }
+        }
     }
     // per-connection facts from the net log
     let mut disc: BTreeMap<u32, (u64, u64)> = BTreeMap::new(); // conn -> (seq, t) of FIN/RST reaching the server
